@@ -17,12 +17,14 @@
 (*      Sanify      utilhinttest.die_unless_hint, utilpeptest.die_if_hint_pep_unsupported*)
 (*      CodeGen     the breadth-first visit of child hints (arity, signs, PEP 586/593), *)
 (*                  with the isinstance(None, cls) probes of clspep3119 (user code!)    *)
+(*      Warn        warnings recorded during code generation are played back            *)
 (*      Unwind      "except Exception: reraise_exception_placeholder(...)" of           *)
 (*                  checkmake / _wrapargs / _wrapreturn: same object, same traceback    *)
-(*      ArgCheck / Body / RetCheck   the generated wrapper: no handler at all           *)
-(*      Report      the error path (get_func_pith_violation) re-walks the hint          *)
-(*      Wrap / WrapUse / Compare     beartype.door.TypeHint, its methods, is_subhint    *)
-(*      Escape      the exception (or the value) leaves the public API                  *)
+(*      Quiet / ArgCheck / ArgCheck2 / Body   the generated wrapper or tester: no       *)
+(*                  handler at all between user code and the caller                     *)
+(*      Report      the error path (get_func_pith_violation) re-walks hint and object   *)
+(*      Wrap / Compare   beartype.door.TypeHint (construction, methods), is_subhint     *)
+(*      ReturnOk / Escape   the value or the exception leaves the public API            *)
 (*  * Judge is the declarative restatement of the property: the set of clauses of the   *)
 (*    statement that an observed outcome breaks.  The invariants say it is empty.       *)
 (*  * Legacy switches on deviations: "unguarded_hash" is what 0.23.0 does (F6);         *)
@@ -114,8 +116,9 @@ VarsOf == [
                     "tuple_none_ellipsis", "notimplemented_child" },
   recursive   |-> { "list_in_itself", "alias_args_cycle", "pep695_self", "pep695_direct", "pep695_mutual",
                     "pep695_bad_value", "pep695_raises", "string_self", "newtype_cycle", "typevar_bound_self" },
-  deep        |-> { "list_nest", "union_nest", "tuple_nest", "string_nest", "annotated_nest", "wide_union",
-                    "wide_tuple", "wide_literal" } ]
+  deep        |-> { "list_nest_110", "list_nest_300", "list_nest_850", "union_nest_80", "union_nest_150",
+                    "tuple_nest_110", "tuple_nest_300", "string_nest_110", "string_nest_300",
+                    "annotated_nest_110", "wide_union_300", "wide_tuple_300", "wide_literal_2000" } ]
 
 Kinds      == DOMAIN VarsOf
 DefectVars == UNION { { <<k, v>> : v \in VarsOf[k] } : k \in Kinds }
@@ -134,7 +137,9 @@ Unhashable(d) == \/ d[1] = "unhashable"
                  \/ d[1] = "annotated" /\ d[2] \in { "only_foreign_unhashable", "validator_and_unhashable" }
                  \/ d[1] = "recursive" /\ d[2] \in { "list_in_itself", "alias_args_cycle" }
 Bottomless(d) == d[1] \in { "recursive", "deep" }
-Lazy(d)       == d[1] \in { "string", "recursive" }     \* may be detected only when called
+Lazy(d)       == \/ d[1] \in { "string", "recursive" }  \* may be detected only when called
+                 \/ d \in { << "annotated", "metahint_bad" >>, << "unsupported", "typevar_bad_bound" >>,
+                            << "malformed", "userclass_subscript" >> }
 ComboKinds    == { "string", "literal", "annotated" }
 
 Mk(e, d, p, r, n, s) == [ entry |-> e, defect |-> d, pos |-> p, rp |-> r, nth |-> n, slot |-> s ]
@@ -247,7 +252,8 @@ FwdCallL   == TLCEval(Rep(PublicDesc("BeartypeCallHintForwardRefException")))
 FwdDecorL  == TLCEval(Rep(PublicDesc("BeartypeDecorHintForwardRefException")))
 ViolL      == TLCEval(Rep(PublicDesc("BeartypeCallHintViolation") \ { "BeartypeDoorHintViolation" }))
 WarnL      == TLCEval(Rep(PublicDesc(WarnTop)))
-Layer(ph)  == CASE ph = "decor" -> DecorHintL
+DecorL     == TLCEval(Rep(PublicDesc("BeartypeDecorHintException")) \cup Rep(PublicDesc(DecorTop)))
+Layer(ph)  == CASE ph = "decor" -> DecorL
                 [] ph = "call"  -> CallHintL
                 [] OTHER        -> DecorHintL \cup DoorL
 
@@ -296,6 +302,9 @@ CodeGen ==
      \/ /\ Defective /\ Bottomless(c.defect) /\ UNCHANGED << obs, reach >>
         /\ Throw(IF "unguarded_recursion" \in Legacy THEN Exc("py:RecursionError")
                  ELSE Exc("BeartypeDecorHintRecursionException"))
+     \/ \* the tester variant of the same probe (is_object_isinstanceable) swallows what the hook raises
+        /\ c.rp \in { "instancecheck", "subclasscheck" } /\ reach + 1 >= c.nth /\ obs.nraise < 2
+        /\ reach' = Bump /\ obs' = ObsUserRaise(obs, 1, FALSE) /\ UNCHANGED << pc, flight >>
      \/ \* clspep3119: isinstance(None, cls) / issubclass(type, cls) run the user's metaclass hook
         /\ c.rp \in { "instancecheck", "subclasscheck" } /\ reach + 1 >= c.nth
         /\ reach' = Bump /\ obs' = ObsUserRaise(obs, 1, FALSE)
@@ -303,7 +312,7 @@ CodeGen ==
            \/ \E k \in Layer(obs.phase) : Throw(Exc(k))                  \* raise exception_cls(...) from it
 
 Warn ==             \* warnings recorded during code generation are played back (checkmake)
-  /\ pc = "codegen" /\ obs.nwarn < 2 /\ UNCHANGED << c, pc, flight, reach, calls >>
+  /\ pc \in { "codegen", "wrap" } /\ obs.nwarn < 3 /\ UNCHANGED << c, pc, flight, reach, calls >>
   /\ \E w \in WarnL : obs' = ObsWarn(obs, w)
 
 Unwind ==           \* except Exception as exception: reraise_exception_placeholder(exception, ...)
@@ -355,15 +364,18 @@ Wrap ==             \* TypeHint.__new__ (doormeta): die_unless_hint(exception_cl
      \/ Defective /\ pc' = "escape" /\ UNCHANGED << obs, reach >> /\ \E k \in Layer("hint") : flight' = Exc(k)
      \/ /\ Defective /\ Unhashable(c.defect) /\ "unguarded_hash" \in Legacy /\ UNCHANGED << obs, reach >>
         /\ pc' = "escape" /\ flight' = Exc("py:TypeError")
-     \/ \* children are sanified when wrapped: the same isinstance() probes as CodeGen
-        /\ c.rp \in { "instancecheck", "subclasscheck" } /\ reach + 1 >= c.nth
+     \/ /\ c.rp \in { "instancecheck", "subclasscheck" } /\ reach + 1 >= c.nth /\ obs.nraise < 2
+        /\ reach' = Bump /\ obs' = ObsUserRaise(obs, 1, FALSE) /\ UNCHANGED << pc, flight >>
+     \/ \* children are sanified when wrapped: the same isinstance() probes as CodeGen; wrapper == wrapper
+        /\ c.rp \in { "instancecheck", "subclasscheck", "eq" } /\ reach + 1 >= c.nth
         /\ reach' = Bump /\ obs' = ObsUserRaise(obs, 1, FALSE) /\ pc' = "escape"
         /\ \/ flight' = UserExc(1, TRUE)
            \/ \E k \in Layer("hint") : flight' = Exc(k)
 Compare ==          \* TypeHint.is_subhint -> issubclass() on the wrapped classes: user hook, no handler
   /\ pc = "compare" /\ UNCHANGED << c, calls >>
   /\ \/ pc' = "return_ok" /\ UNCHANGED << obs, flight, reach >>
-     \/ /\ c.rp = "subclasscheck" /\ reach' = Bump /\ obs' = ObsUserRaise(obs, 1, FALSE)
+     \/ /\ c.rp \in { "subclasscheck", "eq" } /\ reach + 1 >= c.nth     \* (Literal members are compared with ==)
+        /\ reach' = Bump /\ obs' = ObsUserRaise(obs, 1, FALSE)
         /\ flight' = UserExc(1, TRUE) /\ pc' = "escape"
 
 (* ---- leaving the API ------------------------------------------------------------------ *)
